@@ -124,21 +124,21 @@ func genState(t *rapid.T, kind string) Case {
 	if rapid.IntRange(0, 7).Draw(t, "big-build") == 0 {
 		chunks = 9 // dozens to hundreds of elements
 	}
-	c.Build = refl.GenSteps(t, mutatorMethods(c.Cfg), chunks, 12)
+	c.Build = refl.GenStepsFor(t, c.Cfg.Kind, mutatorMethods(c.Cfg), chunks, 12)
 	return c
 }
 
 func genPure(kind string) func(t *rapid.T) Case {
 	return func(t *rapid.T) Case {
 		c := genState(t, kind)
-		c.Readers = [][]refl.Step{refl.GenSteps(t, readOnlyMethods(c.Cfg), 2, 8)}
+		c.Readers = [][]refl.Step{refl.GenStepsFor(t, c.Cfg.Kind, readOnlyMethods(c.Cfg), 2, 8)}
 		return c
 	}
 }
 
 func TestPurity(t *testing.T) {
 	for _, kind := range refl.Kinds {
-		pbt.Run(t, pbt.Target[Case]{Name: "pure/" + kind, Checks: 350, Gen: genPure(kind), Check: checkPure})
+		pbt.Run(t, pbt.Target[Case]{Name: "pure/" + kind, Checks: 200, Gen: genPure(kind), Check: checkPure})
 	}
 }
 
@@ -233,7 +233,7 @@ func genConcurrent(kind string) func(t *rapid.T) Case {
 		g := rapid.IntRange(2, 8).Draw(t, "goroutines")
 		ro := readOnlyMethods(c.Cfg)
 		for i := 0; i < g; i++ {
-			c.Readers = append(c.Readers, refl.GenSteps(t, ro, 2, 6))
+			c.Readers = append(c.Readers, refl.GenStepsFor(t, c.Cfg.Kind, ro, 2, 6))
 		}
 		c.Rounds = rapid.IntRange(1, 3).Draw(t, "rounds")
 		return c
@@ -245,6 +245,6 @@ func TestConcurrentReaders(t *testing.T) {
 		t.Skip("not built with -race")
 	}
 	for _, kind := range refl.Kinds {
-		pbt.Run(t, pbt.Target[Case]{Name: "concurrent/" + kind, Checks: 120, Gen: genConcurrent(kind), Check: checkConcurrent})
+		pbt.Run(t, pbt.Target[Case]{Name: "concurrent/" + kind, Checks: 70, Gen: genConcurrent(kind), Check: checkConcurrent})
 	}
 }
